@@ -64,7 +64,24 @@ func runOps(seed int64, nops int, flush, slots, thresh int) (sigs []string) {
 		}
 	}()
 	for k := 0; k < nops; k++ {
-		switch op := r.Intn(9); op {
+		switch op := r.Intn(10); op {
+		case 9: // a blob whose compressed payload is damaged: the call fails (inside a pooled decoder) and leaves nothing behind
+			text := []byte(fmt.Sprintf(`{"k":["%s",%d,"%s"]}`, strings.Repeat("ab", 40+r.Intn(40)), r.Intn(1000), strings.Repeat("z", 30+r.Intn(30))))
+			pj, err := simdjson.Parse(text, nil)
+			if err != nil {
+				sigs = append(sigs, "bad-blob-parse-error")
+				continue
+			}
+			ser.CompressMode(simdjson.CompressMode(1 + r.Intn(3)))
+			b := ser.Serialize(nil, *pj)
+			sec := r.Intn(3)
+			c := damageBlock(b, sec)
+			if c == nil {
+				sigs = append(sigs, "bad-blob-none")
+				continue
+			}
+			_, derr := ser.Deserialize(c, nil)
+			sigs = append(sigs, sig("bad-blob", sec, derr != nil))
 		case 7, 8: // a float-heavy document marshalled (number formatting scratch space)
 			var text []byte
 			text = append(text, '[')
@@ -403,6 +420,12 @@ func vconc(args []string) error {
 			for k := 0; time.Now().Before(deadline); k++ {
 				s.CompressMode(simdjson.CompressMode(1 + k%3))
 				b := s.Serialize(nil, *pj)
+				if g%4 == 1 && k%5 == 0 {
+					// somebody else's failing call (damaged compressed payload) must not disturb anybody's pooled decoder
+					if c := damageBlock(b, k/5%3); c != nil {
+						simdjson.NewSerializer().Deserialize(c, nil)
+					}
+				}
 				back, derr := d.Deserialize(b, dst)
 				atomic.AddInt64(&hammerOps, 1)
 				if derr != nil {
